@@ -56,6 +56,8 @@ def gen(rng, tier):
         yield case
     for case in gen_typed(rng, tier):
         yield case
+    for case in gen_special(rng, tier):
+        yield case
 
 
 def gen_long(rng, tier):
@@ -72,6 +74,25 @@ def gen_long(rng, tier):
         rle = [[[a, L + 50], [b, 300], [a, L + 50]]]
         yield {'trajs': None, 'rle': rle, 'lag': L, 'S': [a], 'F': [b], 'steps': 10000,
                'seed': rng.randrange(2**31), 'npseed': rng.randrange(2**31), 'alpha': 'huge-lag', 'mal': None, 'long': 'huge-lag'}
+
+
+def gen_special(rng, tier):
+    for _ in range(3 if tier == 'quick' else 40):
+        # alphabets with a negative label whose largest label equals (number of states - 1)
+        n = rng.randint(3, 5)
+        labs = sorted(rng.sample(range(-6, n - 1), n - 1)) + [n - 1]
+        if labs[0] >= 0:
+            labs[0] = -rng.randint(1, 4)
+        t = G.traj(rng, labs, rng.randint(80, 200), sticky=0.6) + labs
+        S, F = [labs[0]], [labs[-1]]
+        yield {'trajs': [t], 'lag': 1, 'S': S, 'F': F, 'steps': rng.choice([100, 500]), 'seed': rng.randrange(2**31),
+               'npseed': rng.randrange(2**31), 'alpha': 'negative-max-n-1', 'mal': None}
+    for _ in range(1 if tier == 'quick' else 2):
+        # a deterministic cycle over 1025 states: every event from state 0 to state 1024 lasts exactly 1024 steps
+        k = 1025
+        t = [i % k for i in range(2 * k + 7)]
+        yield {'trajs': [t], 'lag': 1, 'S': [0], 'F': [k - 1], 'steps': 6000, 'seed': rng.randrange(2**31),
+               'npseed': rng.randrange(2**31), 'alpha': 'cycle-1024', 'mal': None, 'long': 'cycle-1024'}
 
 
 def gen_typed(rng, tier):
@@ -138,7 +159,8 @@ def impl(case):
         c07.related(trajs, case['lag'], lambda d: mh.msm.estimate_waiting_times(trajs=d, lagtime=case['lag'], start=case['S'], final=case['F'], steps=5))
     try:
         cm, perm = ts._get_cummat(trajs, case['lag'])
-        out.update({'cm': [[float(x).hex() for x in r] for r in cm], 'perm': [[int(x) for x in r] for r in perm]})
+        if len(states) <= 300:
+            out.update({'cm': [[float(x).hex() for x in r] for r in cm], 'perm': [[int(x) for x in r] for r in perm]})
     except (AttributeError, TypeError) as exc:
         out['hook_local'] = '_get_cummat: %s' % str(exc)[:120]
     steps = case['steps']
@@ -157,7 +179,7 @@ def impl(case):
         else:
             d = [float(x) for x in record(k)]
         return d
-    huge = case.get('long') == 'huge-steps'
+    huge = case.get('long') in ('huge-steps', 'cycle-1024')
     out['us'] = [] if huge else [u.hex() for u in draws(steps)]
     lagv = np.dtype(case['lagtype']).type(case['lag']) if case.get('lagtype') else case['lag']
     kw = dict(trajs=trajs, lagtime=lagv, start=case['S'], final=case['F'], steps=steps)
@@ -177,6 +199,7 @@ def impl(case):
                 reseed()
                 lst = guarded(lambda: [int(v) for v in fn(return_list=True, **kw)])
                 out['wt_sorted'] = lst if isinstance(lst, dict) else bool(lst == sorted(lst) and all(v > 0 and v % case['lag'] == 0 for v in lst))
+                out['wt_values'] = lst if isinstance(lst, dict) or len(lst) > 50 else lst
             continue
         reseed()
         out[name + '_list'] = guarded(lambda: [int(v) for v in fn(return_list=True, **kw)])
@@ -200,7 +223,7 @@ def impl(case):
 
 
 def requests(case):
-    if case.get('long') in ('huge-lag', 'huge-steps') or case['mal']:
+    if case.get('long') in ('huge-lag', 'huge-steps', 'cycle-1024') or case['mal']:
         return []
     return [[703] + C.enested(G.expand(case)) + [case['lag']]]
 
@@ -220,6 +243,14 @@ def judge(case, ibc, answers):
             continue
         states = r['states']
         n = len(states)
+        if case.get('long') == 'cycle-1024':
+            lst = r.get('wt_values')
+            want = (case['steps'] - 1) // 1025
+            if not isinstance(lst, list) or any(v != 1024 for v in lst) or not (want - 1 <= len(lst) <= want + 1):
+                P('impl-vs-spec', 'deterministic cycle: every waiting time is 1024 steps and about %d events fit into %d steps, got %s' % (want, case['steps'], C.short(lst, 80)))
+            if r['paths'] != r['paths_ref']:
+                P('impl-vs-spec', 'msm.estimate_paths is not the md pathway extraction of the chain from the same generator state')
+            continue
         if case.get('long') == 'huge-steps':
             if r.get('wt_sorted') is not True:
                 P('impl-vs-spec', 'waiting times of a %d-step realisation are not positive multiples of the lag in ascending order: %s' % (case['steps'], C.short(r.get('wt_sorted'), 80)))
